@@ -13,6 +13,7 @@ CONSTANTS
   MaxCycles = 1
   RecheckUnderLock = TRUE
   GuardedConn = TRUE
+  PerCycleWG = TRUE
   Script <- MCScriptL
 PROPERTIES ShutdownReturns ServeReturns AcceptedRuns
 CHECK_DEADLOCK FALSE
